@@ -27,6 +27,7 @@ func zzC18BRun(f func() slip.Object) (out zzC18BOut) {
 			switch tr := rec.(type) {
 			case *slip.Panic:
 				out.class = 1
+				out.fault = tr.Message
 			case slip.Instance:
 				out.class = 1
 			case interface{ RuntimeError() }:
